@@ -347,8 +347,36 @@ func (iv *Inv) walk(t *Tree, as, root string, out *[]selFile, depth int) {
 	}
 }
 
+// ArgsFor renders the command line for a scenario materialised at root ("@ROOT@" in an
+// argument stands for the absolute path of the scenario root).
+func (iv *Inv) ArgsFor(root string) []string {
+	a := iv.Args()
+	for i := range a {
+		a[i] = strings.ReplaceAll(a[i], "@ROOT@", root)
+	}
+	return a
+}
+
+// relOutput is the output argument relative to the scenario root.
+func (iv *Inv) relOutput() string {
+	if strings.HasPrefix(iv.Output, "@ROOT@/") {
+		o := strings.TrimPrefix(iv.Output, "@ROOT@/")
+		if o == "" {
+			return "./"
+		}
+		return o
+	}
+	return iv.Output
+}
+
 // Expect computes the model's prediction.
 func (iv *Inv) Expect(t *Tree) *Expectation {
+	iv2 := *iv
+	iv2.Output = iv.relOutput()
+	return iv2.expect(t)
+}
+
+func (iv *Inv) expect(t *Tree) *Expectation {
 	ex := &Expectation{}
 	m := iv.registry()
 	minifyOne := func(mt string, data []byte) ([]byte, bool) {
